@@ -180,13 +180,18 @@ Proof. intros. unfold upd. rewrite Nat.eqb_refl. reflexivity. Qed.
 Lemma upd_other : forall st k v j, j <> k -> upd st k v j = st j.
 Proof. intros st k v j H. unfold upd. apply Nat.eqb_neq in H. rewrite H. reflexivity. Qed.
 
+(* the verified-bucket cache is an attribute of the OBJECT (re-translated: breaks when it moves to the class / module) *)
+Lemma cache_slot_id : forall k, cache_slot k = k.
+Proof. intros k. reflexivity. Qed.
+
 Lemma stores_projection : forall cf k ops st,
   runs_of k ops (fst (stores cf st ops)) = fst (session (cf k) (st k) (on_store k ops)) /\
   snd (stores cf st ops) k = snd (session (cf k) (st k) (on_store k ops)).
 Proof.
   intros cf k. induction ops as [|o t IH]; intros st.
   - split; reflexivity.
-  - cbn [stores]. destruct (session_op (cf (s_store o)) (st (s_store o)) (s_op o)) as [g vs'] eqn:E.
+  - cbn [stores]. rewrite !cache_slot_id.
+    destruct (session_op (cf (s_store o)) (st (s_store o)) (s_op o)) as [g vs'] eqn:E.
     specialize (IH (upd st (s_store o) vs')).
     destruct (stores cf (upd st (s_store o) vs') t) as [gs st'] eqn:E2. cbn [fst snd] in *.
     unfold on_store in *. cbn [filter runs_of].
@@ -221,7 +226,7 @@ Qed.
 Lemma stores_other_untouched : forall cf st o j, j <> s_store o ->
   snd (stores cf st [o]) j = st j.
 Proof.
-  intros cf st o j H. cbn [stores].
+  intros cf st o j H. cbn [stores]. rewrite !cache_slot_id.
   destruct (session_op (cf (s_store o)) (st (s_store o)) (s_op o)) as [g vs']. cbn. apply upd_other. exact H.
 Qed.
 
